@@ -372,6 +372,57 @@ impl Auto {
         out
     }
 
+    /// Byte-iterator search over a source that answers `None` once after `cut` bytes and would
+    /// deliver the rest afterwards (a segmented / non-fused source). Drives `next()` until it returns
+    /// `None` for the first time; returns the matches up to there and the number of bytes pulled.
+    pub fn run_cut(&self, m: Method, hay: &[u8], cut: usize) -> (Vec<M>, usize) {
+        use std::cell::Cell;
+        let pulled = Cell::new(0usize);
+        let paused = Cell::new(false);
+        let mut idx = 0usize;
+        let src = std::iter::from_fn(|| {
+            if idx == cut && !paused.get() {
+                paused.set(true);
+                return None;
+            }
+            if idx < hay.len() {
+                let b = hay[idx];
+                idx += 1;
+                pulled.set(pulled.get() + 1);
+                Some(b)
+            } else {
+                None
+            }
+        });
+        let mut out = Vec::new();
+        macro_rules! drive {
+            ($it:expr) => {{
+                let mut it = $it;
+                while let Some(m) = it.next() {
+                    out.push((m.start(), m.end(), u64::from(m.value())));
+                    if out.len() > 512 * (hay.len() + 4) {
+                        break;
+                    }
+                }
+            }};
+        }
+        in_lib(|| match self {
+            Auto::B(a) => match m {
+                Method::FindIt => drive!(a.find_iter_from_iter(src)),
+                Method::OvlIt => drive!(a.find_overlapping_iter_from_iter(src)),
+                Method::NoSufIt => drive!(a.find_overlapping_no_suffix_iter_from_iter(src)),
+                _ => panic!("not a byte-iterator method"),
+            },
+            Auto::C(a) => match m {
+                Method::FindIt => drive!(unsafe { a.find_iter_from_iter(src) }),
+                Method::OvlIt => drive!(unsafe { a.find_overlapping_iter_from_iter(src) }),
+                Method::NoSufIt => drive!(unsafe { a.find_overlapping_no_suffix_iter_from_iter(src) }),
+                _ => panic!("not a byte-iterator method"),
+            },
+        });
+        (out, pulled.get())
+    }
+
     /// A step-wise iterator (for interleaving several searches on one automaton).
     pub fn iter<'a>(&'a self, m: Method, hay: &'a [u8]) -> Box<dyn Iterator<Item = M> + 'a> {
         fn cv<V: Copy + Into<u64>>(m: daachorse::Match<V>) -> M {
